@@ -4,6 +4,7 @@
 // Oracle: the value equals the limit of the documented formula (never NaN), and the restraint step returns finite energy.
 #include "vproxy.h"
 #include "common.h"
+#include <algorithm>
 
 using namespace vc;
 
@@ -148,6 +149,55 @@ int main(int argc, char **argv)
           delete px;
         }
     }
+  }
+  // ---- reference positions read from a file (refPositionsFile, XYZ): line n of the file belongs to atom number n (or, when the
+  // file has exactly as many lines as the group has atoms, to the group's atoms in ascending order), whatever the order in which
+  // the group lists its atoms.  ALL 120 listings of a 5-atom group x {file of all 6 atoms, file of the 5 atoms} x {rmsd,
+  // orientationAngle}: the coordinates are the reference turned by 40 degrees about a tilted axis and translated.
+  {
+    std::vector<R> refp = {R(0.3, -1.2, 0.8), R(1.9, 0.4, -0.6), R(-1.1, 1.5, 0.2), R(-0.7, -0.9, -1.4), R(0.9, 0.6, 1.7), R(2.4, -1.8, 0.3)};
+    int group_atoms[5] = {1, 2, 3, 5, 6};   // atom 4 is not in the group
+    for (int full = 0; full <= 1; full++) {
+      FILE *f = fopen(full ? "c02_ref_all.xyz" : "c02_ref_group.xyz", "w");
+      if (!f) { perror("xyz"); return 2; }
+      fprintf(f, "%d\nreference\n", full ? 6 : 5);
+      for (int a = 1; a <= 6; a++) if (full || a != 4) fprintf(f, "C %.10f %.10f %.10f\n", refp[a - 1].x, refp[a - 1].y, refp[a - 1].z);
+      fclose(f);
+    }
+    // current coordinates: rotation by 40 degrees about n = (0.3,-0.5,0.8)/|.|, then a translation
+    R n(0.3, -0.5, 0.8); n = n / n.norm();
+    double ang = 40.0 * 3.14159265358979323846 / 180.0, ca = std::cos(ang), sa = std::sin(ang);
+    std::vector<R> cur(6);
+    R cen(0, 0, 0);
+    for (int k = 0; k < 5; k++) cen += refp[group_atoms[k] - 1];
+    cen = cen / 5.0;
+    for (int a = 0; a < 6; a++) {
+      R v = refp[a] - cen;
+      R vr = v * ca + cvm::rvector::outer(n, v) * sa + n * (n * v) * (1.0 - ca);
+      cur[a] = vr + cen + R(0.7, -0.4, 1.1);
+    }
+    int perm[5] = {0, 1, 2, 3, 4};
+    do {
+      std::string listing;
+      for (int k = 0; k < 5; k++) listing += " " + std::to_string(group_atoms[perm[k]]);
+      for (int full = 0; full <= 1; full++)
+        for (int comp = 0; comp < 2; comp++) {
+          total.count("evaluations");
+          std::string cname = comp ? "orientationAngle" : "rmsd";
+          std::string det = "{\"case\":\"" + cname + " with refPositionsFile (" + (full ? "file of all atoms" : "file of the group's atoms") + ")\",\"atomNumbers\":\"" + listing + "\"";
+          vproxy *px = new vproxy(6, true);
+          for (int a = 0; a < 6; a++) px->x[a] = cur[a];
+          std::string conf = "colvar {\n name c\n " + cname + " {\n atoms { atomNumbers" + listing + " }\n refPositionsFile " + (full ? "c02_ref_all.xyz" : "c02_ref_group.xyz") + "\n }\n}\n";
+          if (px->config(conf) != 0) { total.violation("C02:refPositionsFile:configuration-refused:" + cname, det + ",\"error\":\"" + jesc(px->errtxt.substr(0, 200)) + "\"}"); delete px; continue; }
+          if (px->step(0) != 0) { total.violation("C02:refPositionsFile:error-at-the-step:" + cname, det + "}"); delete px; continue; }
+          total.count("transitions");
+          double v = px->cv("c")->value().real_value, expect = comp ? 40.0 : 0.0;
+          if (!std::isfinite(v) || std::fabs(v - expect) > 1e-6)
+            total.violation("C02:refPositionsFile:value-depends-on-the-order-of-the-atom-list:" + cname, det + ",\"value\":" + num(v) + ",\"expected\":" + num(expect) + "}");
+          total.seen("nontrivial", fnv(det));
+          delete px;
+        }
+    } while (std::next_permutation(perm, perm + 5));
   }
   total.sample("{\"case\":\"coordNum/pair-exactly-at-the-cutoff\",\"expected\":0.5}");
   write_result(args.out, "C02", args.tier, total, true);
